@@ -222,8 +222,8 @@ class _Cmp:
     def cmp(self, a, b, path, depth=0):
         if self.full():
             return
-        if depth > 60:
-            self.add(path, "depth", a, b, "recursion deeper than 60")
+        if depth > 400:
+            self.add(path, "depth", a, b, "recursion deeper than 400")
             return
         ka, kb = kind_of(a), kind_of(b)
         f = self.f
